@@ -810,8 +810,10 @@ class Engine:
         ms = lst.ms
         if ms is not None:
             ms = z3.Store(ms, t, ms[t] + 1)
-        return VList(z3.Store(lst.arr, lst.n, t), lst.n + 1, lst.eshape, ms,
-                     lid=lst.lid)
+        new = VList(z3.Store(lst.arr, lst.n, t), z3.simplify(lst.n + 1),
+                    lst.eshape, ms, lid=lst.lid)
+        self.lib.note_append(st, lst, new, t)
+        return new
 
     def e_Dict(self, st, node):
         if node.keys:
@@ -1109,6 +1111,7 @@ class Engine:
         new = VList(arr, z3.simplify(m), lst.eshape, ms)
         self.assume_list_facts(st, new)
         new.slice_of = (lst, a, b)
+        self.lib.note_slice(st, lst, new, lo, hi)
         return new
 
     def e_Lambda(self, st, node):
@@ -1291,13 +1294,15 @@ class Engine:
             raise Unsupported("value of yield expression")
         v = self.eval(st, node.value)
         for t in node.targets:
+            if isinstance(t, ast.Name) and isinstance(v, (VList, VDict)):
+                v = self.lib.annotate(st, v, t)
             self.assign(st, t, v)
 
     def s_AnnAssign(self, st, node):
         if node.value is None:
             return
         v = self.eval(st, node.value)
-        v = self.lib.annotate(st, v, node.annotation)
+        v = self.lib.annotate(st, v, node.target)
         self.assign(st, node.target, v)
 
     def s_AugAssign(self, st, node):
